@@ -321,6 +321,10 @@ func scenariosOf(pr pairT, thorough bool) []scenT {
 		out = append(out, scenT{Pair: pr, Peer: f})
 	}
 	out = append(out, scenT{Pair: pr, Peer: "stale-and-best", Peers: 2})
+	if pr.A >= 2 && pr.A <= 2*pr.n()-1 && pr.B-pr.A <= 2 {
+		// histories of two failed fast syncs on the same node, the second forking higher than the first
+		out = append(out, scenT{Pair: pr, Peer: "two-failed-fast-syncs"})
+	}
 	return out
 }
 
@@ -386,7 +390,83 @@ func partC(r *vlib.Run) {
 	})
 }
 
+// runTwoSyncs: A (prefix + own blocks) is offered, one after the other, two chains that fork from A's chain at the
+// common prefix and one block above it; each contains an invalid block (state root) right after its fork
+// point, so both fast syncs fail while applying. After each, A must be back on its original tip with its
+// original state.
+func runTwoSyncs(r *vlib.Run, fx *pairFixture, sc scenT, report func(key, what string, sc scenT)) {
+	vclock.Reset()
+	pr := sc.Pair
+	a, err := node.New(convCfg(pr.n(), true, "node-a"))
+	if err != nil {
+		panic(err)
+	}
+	defer a.Close()
+	replay(a, fx.common)
+	grow(a, pr.A, 1)
+	aChain := chainOf(a)
+	origTip := a.Tip().Header
+	origState := stateOf(a)
+	// second peer chain: A's chain up to one block above the prefix, then three other blocks
+	b2, err := node.New(convCfg(pr.n(), false, ""))
+	if err != nil {
+		panic(err)
+	}
+	defer b2.Close()
+	replay(b2, aChain[1:pr.P+2])
+	grow(b2, pr.A+1, 3)
+	chain2 := chainOf(b2)
+	ha := a.Conn.VerifHost()
+	sp1 := newScripted(fx.bChain, fx.bNode, "bad-state-root", pr.P+1)
+	sp2 := newScripted(chain2, b2, "bad-state-root", pr.P+2)
+	c1 := newClient(a.Cfg.ChainID, "peer-1", sp1.handlers())
+	defer c1.Stop()
+	c2 := newClient(a.Cfg.ChainID, "peer-2", sp2.handlers())
+	defer c2.Stop()
+	for _, c := range []*p2p.Connection{c1, c2} {
+		hp := c.VerifHost()
+		if err := dial(hp, ha); err != nil {
+			panic("harness: peer cannot connect to node A: " + err.Error())
+		}
+		if !waitFor(func() bool { return connected(ha, hp.ID()) && connected(hp, ha.ID()) }) {
+			panic("harness: peer not connected to node A")
+		}
+	}
+	steps := []struct {
+		name string
+		c    *p2p.Connection
+		tip  *blockchain.Block
+	}{
+		{"first sync (fork at the common prefix)", c1, fx.bChain[len(fx.bChain)-1]},
+		{"second sync (fork one block higher)", c2, chain2[len(chain2)-1]},
+	}
+	for _, st := range steps {
+		errSync := a.Exec.VerifProcess(node.CloneBlock(st.tip), string(st.c.VerifHost().ID()))
+		r.Add("transitions", 1)
+		r.Add("syncs", 1)
+		tip := a.Tip().Header
+		if errSync == nil {
+			report("faulty-peer-sync-reports-success:two-failed-fast-syncs", st.name+": Sync returned no error although the peer's first block is invalid", sc)
+			return
+		}
+		if !bytes.Equal(tip.ID, origTip.ID) {
+			report("fast-sync-not-restored:two-failed-fast-syncs", fmt.Sprintf("%s failed (%v) and A's tip is at height %d, not its original tip at %d", st.name, errSync, tip.Height, origTip.Height), sc)
+			return
+		}
+		if d := node.DiffDumps(origState, stateOf(a)); len(d) > 0 {
+			report("fast-sync-state-not-restored:two-failed-fast-syncs", fmt.Sprintf("%s failed (%v), the tip is restored but the database differs: %v", st.name, errSync, head(d, 6)), sc)
+			return
+		}
+	}
+	r.Add("faulty_rejected", 1)
+	r.Add("fast_sync_scenarios", 1)
+}
+
 func runScenario(r *vlib.Run, fx *pairFixture, sc scenT, report func(key, what string, sc scenT)) {
+	if sc.Peer == "two-failed-fast-syncs" {
+		runTwoSyncs(r, fx, sc, report)
+		return
+	}
 	vclock.Reset()
 	pr := sc.Pair
 	a, err := node.New(convCfg(pr.n(), true, "node-a"))
